@@ -348,6 +348,26 @@ func genArmor(ctx *Ctx, emit func(Case)) {
 			}
 		}
 	}
+	// --- Unicode white space at the ends (strings.TrimSpace strips it: U+0085, U+00A0,
+	// U+1680, U+2000..200A, U+2028/9, U+202F, U+205F, U+3000), near misses (U+200B,
+	// U+180E are not white space), truncated and stray UTF-8
+	for k := 0; k < ctx.N(120, 1500); k++ {
+		base := prng.Pick(r, "BEGIN KB SALTPACK ENCRYPTED MESSAGE", "END KB SALTPACK ENCRYPTED MESSAGE", "BEGIN SALTPACK SIGNED MESSAGE", "BEGIN SALTPACK DETACHED SIGNATURE", "BEGIN", "")
+		ft := unicodeEnds(r) + base + unicodeEnds(r)
+		if r.Intn(6) == 0 { // in the middle: never trimmed
+			ft = "BEGIN" + unicodeEnds(r) + " SALTPACK ENCRYPTED MESSAGE"
+		}
+		l := fmt.Sprintf("armor.parse %d %s %s", r.Intn(3), prng.Pick(r, "h", "f"), keys.Hex([]byte(ft)))
+		o := goExec(l)
+		emit(Case{Stream: "armor.parse.unicode", Line: l, GoOut: o, Cmp: errCmp, Branch: strings.Fields(o)[0]})
+		if k%3 == 0 {
+			h := unicodeEnds(r) + "BEGIN KB SALTPACK ENCRYPTED MESSAGE" + unicodeEnds(r)
+			f := unicodeEnds(r) + "END KB SALTPACK ENCRYPTED MESSAGE" + unicodeEnds(r)
+			l := fmt.Sprintf("armor.check 0 %s %s", keys.Hex([]byte(h)), keys.Hex([]byte(f)))
+			o := goExec(l)
+			emit(Case{Stream: "armor.check.unicode", Line: l, GoOut: o, Cmp: errCmp, Branch: strings.Fields(o)[0]})
+		}
+	}
 	for k := 0; k < ctx.N(100, 1500); k++ { // random frame-ish strings
 		words := []string{"BEGIN", "END", "SALTPACK", "ENCRYPTED", "MESSAGE", "SIGNED", "DETACHED", "SIGNATURE", "X", "b7", "", " ", ">", "\n", "PGP"}
 		var sb strings.Builder
@@ -405,4 +425,15 @@ func armorShapePredicate(payload []byte, typ saltpack.MessageType, brand string)
 	}
 	_ = bytes.Equal
 	return ""
+}
+
+// unicodeEnds: a run of Unicode white space, near misses and broken UTF-8
+func unicodeEnds(r *prng.R) string {
+	pieces := []string{"", "", " ", "\t", "\u0085", "\u00a0", "\u1680", "\u2000", "\u2003", "\u200a", "\u2028", "\u2029", "\u202f", "\u205f", "\u3000",
+		"\u200b", "\u180e", "\ufeff", "\xc2", "\xe2\x80", "\xc2\x85\xa0", "\x85", "\xa0", "\xe3\x80", "\x80\x80"}
+	var sb strings.Builder
+	for i := 0; i < r.Intn(4); i++ {
+		sb.WriteString(pieces[r.Intn(len(pieces))])
+	}
+	return sb.String()
 }
